@@ -318,6 +318,9 @@ func (v *Validators) PayRewardsV3(height uint64, period int64) (moreRewards *big
 			continue // punished in this block: nothing accrued, nothing to split (and no stake to divide by)
 		}
 		candidate := v.bus.Candidates().GetCandidate(validator.PubKey)
+		if candidate == nil {
+			continue // its candidate changed public key in this block; the validator list is rebuilt right after
+		}
 
 		totalReward := big.NewInt(0).Set(validator.GetAccumReward())
 		remainder := big.NewInt(0).Set(validator.GetAccumReward())
@@ -467,6 +470,9 @@ func (v *Validators) PayRewardsV5Fix(height uint64, period int64) (moreRewards *
 			continue // punished in this block: nothing accrued, nothing to split (and no stake to divide by)
 		}
 		candidate := v.bus.Candidates().GetCandidate(validator.PubKey)
+		if candidate == nil {
+			continue // its candidate changed public key in this block; the validator list is rebuilt right after
+		}
 
 		totalReward := big.NewInt(0).Set(validator.GetAccumReward())
 		remainder := big.NewInt(0).Set(validator.GetAccumReward())
@@ -666,6 +672,9 @@ func (v *Validators) PayRewardsV5Bug(height uint64, period int64) (moreRewards *
 			continue // punished in this block: nothing accrued, nothing to split (and no stake to divide by)
 		}
 		candidate := v.bus.Candidates().GetCandidate(validator.PubKey)
+		if candidate == nil {
+			continue // its candidate changed public key in this block; the validator list is rebuilt right after
+		}
 
 		totalReward := big.NewInt(0).Set(validator.GetAccumReward())
 		remainder := big.NewInt(0).Set(validator.GetAccumReward())
@@ -865,6 +874,9 @@ func (v *Validators) PayRewardsV4(height uint64, period int64) (moreRewards *big
 			continue // punished in this block: nothing accrued, nothing to split (and no stake to divide by)
 		}
 		candidate := v.bus.Candidates().GetCandidate(validator.PubKey)
+		if candidate == nil {
+			continue // its candidate changed public key in this block; the validator list is rebuilt right after
+		}
 
 		totalReward := big.NewInt(0).Set(validator.GetAccumReward())
 		remainder := big.NewInt(0).Set(validator.GetAccumReward())
